@@ -178,3 +178,7 @@ mod tests {
         }
     }
 }
+
+#[cfg(kani)]
+#[path = "/verif/kani/kind_default.rs"]
+mod kani_verif;
